@@ -383,18 +383,30 @@ impl Value {
             _ => panic!("harness: not a string: {:?}", self),
         }
     }
-    /// Compact rendering for evidence samples.
+    /// Compact rendering for evidence samples and messages (long values are cut).
     pub fn show(&self) -> String {
+        let mut s = self.show_full();
+        if s.len() > 400 {
+            let mut cut = 400;
+            while !s.is_char_boundary(cut) {
+                cut -= 1;
+            }
+            s.truncate(cut);
+            s.push_str("...");
+        }
+        s
+    }
+    pub fn show_full(&self) -> String {
         match self {
             Value::Unit => "()".into(),
             Value::Scalar(x) => format!("{:#x}", x),
             Value::Bool(b) => format!("{}", b),
-            Value::Array(v) => format!("[{}]", v.iter().map(|x| x.show()).collect::<Vec<_>>().join(",")),
-            Value::Struct(v) => format!("{{{}}}", v.iter().map(|x| x.show()).collect::<Vec<_>>().join(",")),
-            Value::Enum(i, v) => format!("#{}({})", i, v.iter().map(|x| x.show()).collect::<Vec<_>>().join(",")),
-            Value::Vec(v) => format!("vec[{}]", v.iter().map(|x| x.show()).collect::<Vec<_>>().join(",")),
+            Value::Array(v) => format!("[{}]", v.iter().map(|x| x.show_full()).collect::<Vec<_>>().join(",")),
+            Value::Struct(v) => format!("{{{}}}", v.iter().map(|x| x.show_full()).collect::<Vec<_>>().join(",")),
+            Value::Enum(i, v) => format!("#{}({})", i, v.iter().map(|x| x.show_full()).collect::<Vec<_>>().join(",")),
+            Value::Vec(v) => format!("vec[{}]", v.iter().map(|x| x.show_full()).collect::<Vec<_>>().join(",")),
             Value::Str(s) => format!("{:?}", s),
-            Value::Flex(v) => format!("flex[{}]", v.iter().map(|x| x.show()).collect::<Vec<_>>().join(",")),
+            Value::Flex(v) => format!("flex[{}]", v.iter().map(|x| x.show_full()).collect::<Vec<_>>().join(",")),
         }
     }
 }
